@@ -1,10 +1,14 @@
 use crate::mon::Check;
 
+pub mod crash03;
+pub mod det16;
+pub mod fs19;
 pub mod hist;
 pub mod libq;
 pub mod lsp11;
 pub mod lsp12;
 pub mod lsp13;
+pub mod lsp14;
 pub mod norm;
 pub mod refactor;
 pub mod rename;
@@ -24,6 +28,10 @@ pub fn all() -> Vec<Box<dyn Check>> {
     v.push(Box::new(lsp11::C11));
     v.push(Box::new(lsp12::C12));
     v.push(Box::new(lsp13::C13));
+    v.push(Box::new(lsp14::C14));
+    v.push(Box::new(crash03::C03));
+    v.push(Box::new(det16::C16));
+    v.push(Box::new(fs19::C19));
     for p in ["C04", "C20"] {
         v.push(Box::new(hist::HistCheck { prop: p }));
     }
